@@ -1,8 +1,272 @@
-//! Concurrent actors under a deterministic scheduler (filled in later).
-use serde_json::Value;
+//! Concurrent actors (a backup and a gc/delete, or two backups) under a deterministic scheduler.
+//!
+//! Every actor runs on its own thread with its own runtime and parks in the interceptor's
+//! `before` of every storage verb; the scheduler releases exactly one parked verb at a time, so
+//! the order of `op` events in the log is the real order of effects.
+//!
+//! Step {"op":"concurrent","actors":[A1,A2],"schedule":[SEG,...],"rest":"order"}
+//!   Ai  = a backup or delete step with an "actor" name; a backup may carry its own "tree".
+//!   SEG = {"a": name, "n": k}            run k verbs of that actor
+//!       | {"a": name, "until": {"verb": v, "t": keytype}}   run it up to and including such a verb
+//!   After the schedule the actors are run to completion one after the other in the order of
+//!   their last appearance... simply: the actor of the last segment first, then the others.
+//!
+//! Step {"op":"conc_sweep","actors":[A1,A2],"preemptions":P,"sample":N,"seed":s,"then":[...]}
+//!   enumerates schedules with at most P switches placed before key verbs (verbs on shared keys),
+//!   sampling N of them when there are more.
+
+use std::collections::HashMap;
+use std::path::PathBuf;
+use std::sync::Arc;
+use std::time::Duration;
+
+use serde_json::{Value, json};
 
 use crate::drive::Runner;
+use crate::intercept::{Plan, Sched};
+use crate::tree::{self, Node};
 
-pub fn do_concurrent(_r: &mut Runner, _st: &Value) {
-    unimplemented!("concurrent step")
+fn actor_name(a: &Value, i: usize) -> String {
+    a.get("actor").and_then(|x| x.as_str()).map(|s| s.to_string()).unwrap_or_else(|| format!("a{i}"))
+}
+
+fn seg_matches(until: &Value, parked: &Value) -> bool {
+    let v_ok = until.get("verb").and_then(|x| x.as_str()).map(|v| parked["verb"] == v).unwrap_or(true);
+    let t_ok = until.get("t").and_then(|x| x.as_str()).map(|t| parked["key"]["t"] == t).unwrap_or(true);
+    v_ok && t_ok
+}
+
+/// Is this parked verb one that touches state shared with the other actor?
+fn is_key_verb(parked: &Value) -> bool {
+    let t = parked["key"]["t"].as_str().unwrap_or("");
+    let verb = parked["verb"].as_str().unwrap_or("");
+    match t {
+        "Lock" | "Root" | "BandDir" | "Head" | "Tail" | "BlockRoot" | "Block" => true,
+        "BlockSub" => verb == "list_dir",
+        "Hunk" => verb == "write" || verb == "read",
+        _ => false,
+    }
+}
+
+struct Prepared {
+    steps: Vec<Value>,
+    names: Vec<String>,
+    srcs: Vec<(PathBuf, Vec<Node>, bool)>,
+}
+
+fn prepare(r: &Runner, actors: &[Value]) -> Prepared {
+    let mut names = vec![];
+    let mut srcs = vec![];
+    for (i, a) in actors.iter().enumerate() {
+        let name = actor_name(a, i);
+        if let Some(t) = a.get("tree") {
+            let nodes: Vec<Node> = serde_json::from_value(t.clone()).expect("actor tree");
+            let dir = r.work.join(format!("src_{name}"));
+            tree::materialize(&dir, &nodes).expect("materialize actor tree");
+            let proj = tree::project(&dir).unwrap();
+            srcs.push((dir, proj, true));
+        } else {
+            srcs.push((r.src.clone(), r.src_tree.clone(), false));
+        }
+        names.push(name);
+    }
+    let steps = actors
+        .iter()
+        .enumerate()
+        .map(|(i, a)| {
+            let mut a = a.clone();
+            a["actor"] = json!(names[i]);
+            a
+        })
+        .collect();
+    Prepared { steps, names, srcs }
+}
+
+/// Run the actors under `schedule`. Returns per actor the list of parked-verb descriptions it
+/// executed, in order (used by the sweep to find switch points).
+fn run_scheduled(r: &Runner, prep: &Prepared, schedule: &[Value], record: bool) -> (HashMap<String, Vec<Value>>, bool) {
+    let sched = Sched::new(&prep.names);
+    let mut executed: HashMap<String, Vec<Value>> = prep.names.iter().map(|n| (n.clone(), vec![])).collect();
+    let mut diverged = false;
+    r.log.emit(json!({"ev": "conc_begin", "actors": prep.names, "schedule": schedule}));
+    std::thread::scope(|scope| {
+        for (i, st) in prep.steps.iter().enumerate() {
+            let sched = sched.clone();
+            let (dir, tree_, own) = &prep.srcs[i];
+            scope.spawn(move || {
+                if st["op"] == "delete" {
+                    r.do_delete(st, Plan::default(), Some(sched));
+                } else {
+                    r.do_backup_from(st, Plan::default(), Some(sched), dir, tree_, *own);
+                }
+            });
+        }
+        // the scheduling loop
+        let mut seg_i = 0;
+        let mut seg_left: i64 = -1; // remaining count of current "n" segment
+        let mut last_actor: Option<String> = None;
+        loop {
+            let parked = match sched.wait_quiescent(Duration::from_secs(crate::drive::CALL_TIMEOUT_S + 15)) {
+                Some(p) => p,
+                None => {
+                    // an actor is stuck outside a storage verb: give up (the watchdog will report)
+                    r.log.emit(json!({"ev": "note", "what": "scheduler timeout"}));
+                    std::process::exit(3);
+                }
+            };
+            if parked.is_empty() {
+                break;
+            }
+            // pick the actor
+            let mut pick: Option<String> = None;
+            while seg_i < schedule.len() {
+                let seg = &schedule[seg_i];
+                let a = seg["a"].as_str().unwrap_or("").to_string();
+                if !parked.contains_key(&a) {
+                    // that actor is done: the schedule no longer matches the run
+                    if seg.get("n").is_none() {
+                        diverged = true;
+                    }
+                    seg_i += 1;
+                    seg_left = -1;
+                    continue;
+                }
+                if let Some(n) = seg.get("n").and_then(|x| x.as_i64()) {
+                    if seg_left < 0 {
+                        seg_left = n;
+                    }
+                    if seg_left == 0 {
+                        seg_i += 1;
+                        seg_left = -1;
+                        continue;
+                    }
+                    seg_left -= 1;
+                    if seg_left == 0 {
+                        seg_i += 1;
+                        seg_left = -1;
+                    }
+                    pick = Some(a);
+                    break;
+                } else {
+                    let until = &seg["until"];
+                    if seg_matches(until, &parked[&a]) {
+                        seg_i += 1;
+                    }
+                    pick = Some(a);
+                    break;
+                }
+            }
+            let a = match pick {
+                Some(a) => a,
+                None => {
+                    // schedule exhausted: finish the last scheduled actor first, then the others in order
+                    match &last_actor {
+                        Some(l) if parked.contains_key(l) => l.clone(),
+                        _ => prep.names.iter().find(|n| parked.contains_key(*n)).unwrap().clone(),
+                    }
+                }
+            };
+            if record {
+                executed.get_mut(&a).unwrap().push(parked[&a].clone());
+            }
+            last_actor = Some(a.clone());
+            sched.grant(&a);
+        }
+    });
+    r.log.emit(json!({"ev": "quiesce", "diverged": diverged}));
+    r.emit_fsck();
+    (executed, diverged)
+}
+
+pub fn do_concurrent(r: &mut Runner, st: &Value) {
+    let actors = st["actors"].as_array().cloned().unwrap_or_default();
+    let schedule = st.get("schedule").and_then(|x| x.as_array()).cloned().unwrap_or_default();
+    let prep = prepare(r, &actors);
+    run_scheduled(r, &prep, &schedule, false);
+}
+
+/// Enumerate schedules with at most P preemptions at key verbs.
+pub fn do_conc_sweep(r: &mut Runner, st: &Value) {
+    let actors = st["actors"].as_array().cloned().unwrap_or_default();
+    let then: Vec<Value> = st.get("then").and_then(|x| x.as_array()).cloned().unwrap_or_default();
+    let pmax = st.get("preemptions").and_then(|x| x.as_u64()).unwrap_or(2) as usize;
+    let sample = st.get("sample").and_then(|x| x.as_u64()).unwrap_or(0) as usize;
+    let seed = st.get("seed").and_then(|x| x.as_u64()).unwrap_or(1);
+    let prep = prepare(r, &actors);
+    assert_eq!(prep.names.len(), 2, "conc_sweep takes two actors");
+    r.do_save();
+    // solo probes: A then B, and B then A, recording the verbs each executes
+    let (a, b) = (prep.names[0].clone(), prep.names[1].clone());
+    let mut key_positions: HashMap<String, Vec<usize>> = HashMap::new();
+    let mut lens: HashMap<String, usize> = HashMap::new();
+    for first in [&a, &b] {
+        let sch = vec![json!({"a": first, "n": 1_000_000})];
+        let (exec, _) = run_scheduled(r, &prep, &sch, true);
+        r.run_steps(&then);
+        r.do_reset();
+        // positions (counts of verbs executed before) at which a switch is worthwhile
+        let v = &exec[first];
+        let mut pos: Vec<usize> = vec![0];
+        for (i, p) in v.iter().enumerate() {
+            if is_key_verb(p) {
+                if i > 0 {
+                    pos.push(i); // before this verb
+                }
+                pos.push(i + 1); // after it
+            }
+        }
+        pos.sort();
+        pos.dedup();
+        lens.insert(first.clone(), v.len());
+        key_positions.insert(first.clone(), pos);
+    }
+    // schedules: first actor X runs to position p1, then Y to q1, then X to p2 (> p1), then Y to q2 (> q1) ...
+    let mut scheds: Vec<Vec<Value>> = Vec::new();
+    for (x, y) in [(&a, &b), (&b, &a)] {
+        let px = &key_positions[x];
+        let py = &key_positions[y];
+        // 1 preemption: X p1, then Y to the end, then X
+        for &p1 in px {
+            if pmax >= 1 && p1 > 0 && p1 < lens[x] {
+                scheds.push(vec![json!({"a": x, "n": p1}), json!({"a": y, "n": 1_000_000})]);
+            }
+            if pmax >= 2 {
+                for &q1 in py {
+                    if q1 == 0 || q1 >= lens[y] {
+                        continue;
+                    }
+                    scheds.push(vec![json!({"a": x, "n": p1}), json!({"a": y, "n": q1}), json!({"a": x, "n": 1_000_000})]);
+                    if pmax >= 3 {
+                        for &p2 in px {
+                            if p2 <= p1 || p2 >= lens[x] {
+                                continue;
+                            }
+                            scheds.push(vec![json!({"a": x, "n": p1}), json!({"a": y, "n": q1}), json!({"a": x, "n": p2 - p1}),
+                                             json!({"a": y, "n": 1_000_000})]);
+                        }
+                    }
+                }
+            }
+        }
+    }
+    let total = scheds.len();
+    if sample > 0 && scheds.len() > sample {
+        let mut x = seed.wrapping_mul(0x9E3779B97F4A7C15) | 1;
+        let mut picked = Vec::new();
+        for _ in 0..sample {
+            x ^= x << 13;
+            x ^= x >> 7;
+            x ^= x << 17;
+            let i = (x % scheds.len() as u64) as usize;
+            picked.push(scheds.swap_remove(i));
+        }
+        scheds = picked;
+    }
+    r.log.emit(json!({"ev": "sweep", "mode": "schedules", "nops": lens[&a] + lens[&b], "ninj": scheds.len(), "total": total}));
+    for sch in scheds {
+        run_scheduled(r, &prep, &sch, false);
+        r.run_steps(&then);
+        r.do_reset();
+    }
+    r.do_unsave();
 }
